@@ -28,8 +28,26 @@ def seeded():
         if m.get("strengthened"): how += "; " + m["strengthened"]
         rows.append("| %s | %s | %s | %s | %s |" % (m["property"], i, summ, "yes" if caught else "NO", how.replace("|", "/")[:200]))
     return "\n".join(rows)
+def summary():
+    k = json.load(open(os.path.join(ROOT, "KNOWN_FINDINGS.json")))["findings"]
+    rows = ["| property | theorems pinned in Props | Coq lines (theories) | technique | open findings | fixed defects | notes |", "|---|---|---|---|---|---|---|"]
+    for f in sorted(glob.glob(os.path.join(ROOT, "lib", "claims", "C*.json"))):
+        pid = os.path.basename(f)[:-5]
+        c = json.load(open(f))
+        props = os.path.join(ROOT, "coq", "Props", pid + ".v")
+        nob = len(re.findall(r"^\s*Print Assumptions\s", open(props).read(), flags=re.M)) if os.path.exists(props) else 0
+        lines = 0
+        for d in glob.glob(os.path.join(ROOT, "coq", "theories", pid, "*.v")):
+            lines += sum(1 for _ in open(d))
+        if pid == "C08":
+            lines = "(in C07)"
+        o = sum(1 for x in k if x["property"] == pid and x["status"] == "open")
+        fx = sum(1 for x in k if x["property"] == pid and x["status"] == "fixed")
+        note = "notes/%s.md" % pid if os.path.exists(os.path.join(ROOT, "notes", pid + ".md")) else ("notes/C07.md" if pid == "C08" else "lib/claims/%s.json" % pid)
+        rows.append("| %s | %d | %s | %s | %d | %d | %s |" % (pid, nob, lines, c["technique"].replace("|", "/")[:150], o, fx, note))
+    return "\n".join(rows)
 s = open(os.path.join(ROOT, "DESIGN.md")).read()
-for name, fn in (("FIXES", fixes), ("FINDINGS", findings), ("SEEDED", seeded)):
+for name, fn in (("FIXES", fixes), ("FINDINGS", findings), ("SEEDED", seeded), ("SUMMARY", summary)):
     a, b = "<!-- AUTOGEN %s BEGIN -->" % name, "<!-- AUTOGEN %s END -->" % name
     if a in s:
         s = s[:s.index(a) + len(a)] + "\n" + fn() + "\n" + s[s.index(b):]
